@@ -730,7 +730,7 @@ Lemma op_safe s o :
               = spec_blobs_step H (fun x => exists_file (sfs s) (FBlob x)) o d') /\
   forall k, Recoverable H (sfs s) (crash_fs H shuffle false false true s o k) (sfs (runop s o)).
 Proof.
-  intro I. unfold run_op, crash_fs, op_steps. destruct o as [d cont man|d r|r|d| |live].
+  intro I. unfold run_op, crash_fs, op_steps. destruct o as [d cont man|d r|r|d| |dd|live].
   - (* Push *)
     cbn [op_mem spec_blobs_step]. destruct (exists_file (sfs s) (FBlob d)) eqn:Ex.
     + destruct (noop_safe s _ _ I eq_refl eq_refl) as (N1 & NA & N2 & N3).
@@ -780,6 +780,18 @@ Proof.
     destruct (idx_only_safe s (stags s) (sdigs s) I (inv_tagdig s I) (inv_digs s I) (inv_fun s I)) as (I1 & A1 & F1 & R1).
     split; [exact I1|split; [intros _; exact A1|split; [|exact R1]]]. intro d'. cbn [sfs]. unfold exists_file.
     rewrite F1; [reflexivity|discriminate|reflexivity].
+  - (* TagDig *)
+    cbn [op_mem spec_blobs_step]. destruct (exists_file (sfs s) (FBlob dd)) eqn:Ex.
+    + apply exists_file_true in Ex.
+      destruct (idx_only_safe s (stags s) (dig_add dd (sdigs s)) I) as (I1 & A1 & F1 & R1).
+      * intros r' n Hin. apply dig_add_incl. exact (inv_tagdig s I r' n Hin).
+      * intros n Hin. apply dig_add_In in Hin as [->|Hin]; [exact Ex|now apply (inv_digs s I)].
+      * exact (inv_fun s I).
+      * split; [exact I1|split; [intros _; exact A1|split; [|exact R1]]]. intro d'. cbn [sfs]. unfold exists_file.
+        rewrite F1; [reflexivity|discriminate|reflexivity].
+    + destruct (noop_safe s _ _ I eq_refl eq_refl) as (N1 & NA & N2 & N3).
+      split; [exact N1|split; [exact NA|split; [|exact N3]]].
+      intro d'. cbn [sfs]. unfold exists_file. now rewrite N2.
   - (* Forget *)
     cbn [op_mem spec_blobs_step].
     set (digs' := filter (fun x => memN x live || existsb (fun e => snd e =? x) (stags s)) (sdigs s)).
@@ -866,7 +878,7 @@ Proof.
   intros I [Rb Rt]. split.
   - intro d'. destruct (op_safe s o I) as (_ & _ & E & _). rewrite E.
     apply spec_blobs_ext. exact Rb.
-  - unfold run_op. destruct o as [d cont man|d r|r|d| |live]; cbn [op_mem spec_tags_step].
+  - unfold run_op. destruct o as [d cont man|d r|r|d| |dd|live]; cbn [op_mem spec_tags_step].
     + (* Push: the tag map does not change *)
       destruct (exists_file (sfs s) (FBlob d)); [exact Rt|].
       destruct (negb (H cont =? d)); [exact Rt|]. destruct man; exact Rt.
@@ -897,6 +909,7 @@ Proof.
         -- intros [Eq _]. exact Eq.
         -- intro Eq. injection Eq as <-. split; [reflexivity|now rewrite E].
     + exact Rt.
+    + destruct (exists_file (sfs s) (FBlob dd)); exact Rt.
     + exact Rt.
 Qed.
 
@@ -973,7 +986,7 @@ Ltac tc_solve :=
 
 Lemma op_steps_tc s o : all_tc (sctr s) (steps s o).
 Proof.
-  unfold op_steps. cbv beta iota delta [auto_idx]. destruct o as [d cont man|d r|r|d| |live]; cbn [op_mem].
+  unfold op_steps. cbv beta iota delta [auto_idx]. destruct o as [d cont man|d r|r|d| |dd|live]; cbn [op_mem].
   - destruct (exists_file (sfs s) (FBlob d)); [apply all_tc_nil|].
     destruct (H cont =? d); cbn [negb]; destruct man; tc_solve.
   - destruct (exists_file (sfs s) (FBlob d)); tc_solve.
@@ -981,6 +994,7 @@ Proof.
   - destruct (existsb (fun e => snd e =? d) (stags s) || memN d (sdigs s));
       destruct (exists_file (sfs s) (FBlob d)); tc_solve.
   - tc_solve.
+  - destruct (exists_file (sfs s) (FBlob dd)); tc_solve.
   - tc_solve.
 Qed.
 
@@ -1171,7 +1185,7 @@ Ltac ipf_solve :=
 
 Theorem no_in_place_write s o : all_ipf (steps s o).
 Proof.
-  unfold op_steps. cbv beta iota delta [auto_idx]. destruct o as [d cont man|d r|r|d| |live]; cbn [op_mem].
+  unfold op_steps. cbv beta iota delta [auto_idx]. destruct o as [d cont man|d r|r|d| |dd|live]; cbn [op_mem].
   - destruct (exists_file (sfs s) (FBlob d)); [apply all_ipf_nil|].
     destruct (H cont =? d); cbn [negb]; destruct man; ipf_solve.
   - destruct (exists_file (sfs s) (FBlob d)); ipf_solve.
@@ -1179,6 +1193,7 @@ Proof.
   - destruct (existsb (fun e => snd e =? d) (stags s) || memN d (sdigs s));
       destruct (exists_file (sfs s) (FBlob d)); ipf_solve.
   - ipf_solve.
+  - destruct (exists_file (sfs s) (FBlob dd)); ipf_solve.
   - ipf_solve.
 Qed.
 
@@ -1848,7 +1863,7 @@ Lemma stored_step_sound s x d acc :
 Proof.
   intros I Ha Hs. destruct x as [o|o k]; cbn [run_hop].
   - (* completed *)
-    destruct o as [d' c m|d' r|r|d'| |live]; cbn [stored_step] in Hs;
+    destruct o as [d' c m|d' r|r|d'| |dd|live]; cbn [stored_step] in Hs;
       try (apply blob_kept_by_op; [exact I|now apply Ha|intros ? E; discriminate]).
     + destruct ((d' =? d) && (H c =? d)) eqn:E.
       * apply andb_true_iff in E as [E1 E2]. apply N.eqb_eq in E1. subst d'.
@@ -1860,7 +1875,7 @@ Proof.
   - (* interrupted: present before and after the operation, hence at the cut *)
     rewrite sfs_reopen.
     assert (Hacc : acc = true /\ forall d', o = Delete d' -> d' <> d).
-    { destruct o as [d' c m|d' r|r|d'| |live]; cbn [stored_step] in Hs; try (split; [exact Hs|intros ? E; discriminate]).
+    { destruct o as [d' c m|d' r|r|d'| |dd|live]; cbn [stored_step] in Hs; try (split; [exact Hs|intros ? E; discriminate]).
       destruct (d' =? d) eqn:E; [discriminate|]. apply N.eqb_neq in E.
       split; [exact Hs|]. intros d0 E0. injection E0 as <-. exact E. }
     destruct Hacc as [Hacc Hn].
@@ -1905,7 +1920,7 @@ Lemma tag_kept_by_op s o d r :
   (forall d', o = Delete d' -> d' <> d) ->
   In (r, d) (stags (runop s o)).
 Proof.
-  intros Hin HT HU HD. unfold run_op. destruct o as [d' c m|d' r'|r'|d'| |live]; cbn [op_mem].
+  intros Hin HT HU HD. unfold run_op. destruct o as [d' c m|d' r'|r'|d'| |dd|live]; cbn [op_mem].
   - destruct (exists_file (sfs s) (FBlob d')); [exact Hin|].
     destruct (negb (H c =? d')); [exact Hin|]. destruct m; exact Hin.
   - destruct (exists_file (sfs s) (FBlob d')); cbn [stags]; [|exact Hin].
@@ -1916,6 +1931,7 @@ Proof.
   - cbn [stags]. apply filter_In. split; [exact Hin|]. cbn.
     apply negb_true_iff, N.eqb_neq. intro E. exact (HD d' eq_refl (eq_sym E)).
   - exact Hin.
+  - destruct (exists_file (sfs s) (FBlob dd)); exact Hin.
   - exact Hin.
 Qed.
 
@@ -1929,7 +1945,7 @@ Proof.
   destruct x as [o|o k]; cbn [run_hop] in *.
   - (* completed: read the memory of the state after *)
     apply (on_disk_mem _ d r Ihop).
-    destruct o as [d' c m|d' r'|r'|d'| |live]; cbn [tagged_step fst snd] in Hs;
+    destruct o as [d' c m|d' r'|r'|d'| |dd|live]; cbn [tagged_step fst snd] in Hs;
       try (apply tag_kept_by_op; [now apply Htg|intros; discriminate|intros; discriminate|intros; discriminate]).
     + destruct (r' =? r) eqn:Er; cbn [snd] in Hs.
       * apply N.eqb_eq in Er. subst r'. apply andb_true_iff in Hs as [Ed Hs]. apply N.eqb_eq in Ed. subst d'.
@@ -1946,7 +1962,7 @@ Proof.
        found is one of the two *)
     assert (Hk : tg = true /\ (forall d' r', o = Tag d' r' -> r' <> r) /\ (forall r', o = Untag r' -> r' <> r) /\
                  (forall d', o = Delete d' -> d' <> d)).
-    { destruct o as [d' c m|d' r'|r'|d'| |live]; cbn [tagged_step fst snd] in Hs;
+    { destruct o as [d' c m|d' r'|r'|d'| |dd|live]; cbn [tagged_step fst snd] in Hs;
         try (split; [exact Hs|repeat split; intros; discriminate]).
       - destruct (r' =? r) eqn:Er; cbn [snd] in Hs; [discriminate|]. apply N.eqb_neq in Er.
         split; [exact Hs|]. split; [|split; intros; discriminate]. intros d0 r0 E. injection E as _ <-. exact Er.
@@ -1983,7 +1999,7 @@ Proof.
       + intro Hs. apply (stored_step_sound s x d st I Hst).
         assert (E1 : fst (tagged_step H d r (st, tg) x) = stored_step H d st x).
         { unfold tagged_step. cbn [fst].
-          destruct x as [[| | | | |]|[| | | | |] ?]; cbn [fst]; try reflexivity;
+          destruct x as [[| | | | | |]|[| | | | | |] ?]; cbn [fst]; try reflexivity;
             match goal with |- fst (if ?c then _ else _) = _ => destruct c; reflexivity end. }
         rewrite E in E1. cbn [fst] in E1. now rewrite <- E1.
       + intro Ht. apply (on_disk_mem _ d r Ix).
@@ -1997,7 +2013,7 @@ Lemma blob_from_op s o d :
   exists_file (sfs s) (FBlob d) = true \/ (exists c m, o = Push d c m /\ H c = d).
 Proof.
   intros I Hx. destruct (op_safe s o I) as (_ & _ & E & _). rewrite E in Hx.
-  destruct o as [d' c m|d' r|r|d'| |live]; cbn in Hx; try (now left).
+  destruct o as [d' c m|d' r|r|d'| |dd|live]; cbn in Hx; try (now left).
   - destruct (exists_file (sfs s) (FBlob d')) eqn:Ex; [now left|].
     destruct (H c =? d') eqn:Eh; [|now left].
     destruct (d =? d') eqn:Ed; [|now left].
@@ -2008,7 +2024,7 @@ Qed.
 Lemma tag_from_op s o d r :
   In (r, d) (stags (runop s o)) -> In (r, d) (stags s) \/ o = Tag d r.
 Proof.
-  unfold run_op. destruct o as [d' c m|d' r'|r'|d'| |live]; cbn [op_mem].
+  unfold run_op. destruct o as [d' c m|d' r'|r'|d'| |dd|live]; cbn [op_mem].
   - destruct (exists_file (sfs s) (FBlob d')); [now left|].
     destruct (negb (H c =? d')); [now left|]. destruct m; now left.
   - destruct (exists_file (sfs s) (FBlob d')); cbn [stags]; [|now left].
@@ -2017,6 +2033,7 @@ Proof.
     intro Hin. unfold tag_del in Hin. apply filter_In in Hin as [Hin _]. now left.
   - cbn [stags]. intro Hin. apply filter_In in Hin as [Hin _]. now left.
   - now left.
+  - destruct (exists_file (sfs s) (FBlob dd)); now left.
   - now left.
 Qed.
 
@@ -2132,7 +2149,7 @@ Definition DecInv (s : st) : Prop := forall n, In n (sdigs s) -> mt n = true -> 
 Definition ok_at (s : st) (o : op) : Prop :=
   match o with
   | Push d _ true => dec d = true
-  | Tag d _ => exists_file (sfs s) (FBlob d) = true -> mt d = true -> dec d = true
+  | Tag d _ | TagDig d => exists_file (sfs s) (FBlob d) = true -> mt d = true -> dec d = true
   | _ => True
   end.
 
@@ -2145,26 +2162,29 @@ Fixpoint all_ok (s : st) (os : list op) : Prop :=
 Lemma digs_step s o n :
   In n (sdigs (runop s o)) ->
   In n (sdigs s) \/ (exists c, o = Push n c true) \/
-  (exists r, o = Tag n r /\ exists_file (sfs s) (FBlob n) = true).
+  ((exists r, o = Tag n r) \/ o = TagDig n) /\ exists_file (sfs s) (FBlob n) = true.
 Proof.
-  unfold run_op. destruct o as [d c m|d r|r|d| |live]; cbn [op_mem].
+  unfold run_op. destruct o as [d c m|d r|r|d| |dd|live]; cbn [op_mem].
   - destruct (exists_file (sfs s) (FBlob d)); cbn [sdigs]; [now left|].
     destruct (negb (H c =? d)); cbn [sdigs]; [now left|].
     destruct m; cbn [sdigs]; [|now left].
     intro Hin. apply dig_add_In in Hin as [->|Hin]; [right; left; now exists c|now left].
   - destruct (exists_file (sfs s) (FBlob d)) eqn:Ex; cbn [sdigs]; [|now left].
-    intro Hin. apply dig_add_In in Hin as [->|Hin]; [right; right; exists r; now split|now left].
+    intro Hin. apply dig_add_In in Hin as [->|Hin]; [right; right; split; [left; now exists r|exact Ex]|now left].
   - destruct (tag_get r (stags s)); cbn [sdigs]; now left.
   - cbn [sdigs]. intro Hin. apply filter_In in Hin as [Hin _]. now left.
   - now left.
+  - destruct (exists_file (sfs s) (FBlob dd)) eqn:Ex; cbn [sdigs]; [|now left].
+    intro Hin. apply dig_add_In in Hin as [->|Hin]; [right; right; split; [now right|exact Ex]|now left].
   - cbn [sdigs]. intro Hin. apply filter_In in Hin as [Hin _]. now left.
 Qed.
 
 Lemma decinv_step s o : DecInv s -> ok_at s o -> DecInv (runop s o).
 Proof.
-  intros D Ho n Hin Hm. apply digs_step in Hin as [Hin|[(c & ->)|(r & -> & Ex)]].
+  intros D Ho n Hin Hm. apply digs_step in Hin as [Hin|[(c & ->)|[[(r & ->)| ->] Ex]]].
   - now apply D.
   - exact Ho.
+  - now apply Ho.
   - now apply Ho.
 Qed.
 
@@ -2192,7 +2212,7 @@ Qed.
 
 Lemma expand_all_ok s a : all_ok s (expd s a).
 Proof.
-  destruct a as [d c|d r|r|d cas| |live sw|]; cbn [expand].
+  destruct a as [d c|d r|r|d|d|d cas| |live sw|]; cbn [expand].
   - destruct (mt d) eqn:Em; [|cbn; auto].
     destruct (dec d) eqn:Ed; [cbn; auto|].
     destruct (exists_file (sfs s) (FBlob d)); [cbn; auto|].
@@ -2201,6 +2221,10 @@ Proof.
     cbn. split; [|exact I]. intros Ex Hm. rewrite Ex, Hm in E. cbn in E.
     destruct (dec d); [reflexivity|discriminate].
   - cbn. auto.
+  - destruct (exists_file (sfs s) (FBlob d) && mt d && negb (dec d)) eqn:E; [exact I|].
+    cbn. split; [|exact I]. intros Ex Hm. rewrite Ex, Hm in E. cbn in E.
+    destruct (dec d); [reflexivity|discriminate].
+  - exact I.
   - apply all_ok_trivial. intros o [<-|Hin] s'; [exact I|].
     apply in_map_iff in Hin as (x & <- & _). exact I.
   - cbn. auto.
